@@ -1,5 +1,7 @@
 CONSTANTS Urls <- UrlsC
           Texts <- TextsC
+          Cfgs <- CfgsC
+          ConfigRebuilds = TRUE
           MaxMsgs = 5
           MaxInFlight = 3
           VersionGuard = FALSE
